@@ -332,7 +332,8 @@ def corr_triples(ctx, variant):
         if isinstance(a, tuple):
             impl = L.call(R._compute_log_a_for_int_alpha, q, s, a[1])
             model = L.lsval(rep[i])
-            ok = not isinstance(impl, L.Exc) and not isinstance(model, str) and core.close(impl, model, 1e-9, 1e-300)
+            # log A is obtained by cancellation from intermediates of size ~1: absolute rounding noise 1e-16, as in ev_close
+            ok = not isinstance(impl, L.Exc) and not isinstance(model, str) and core.close(impl, model, 1e-9, 1e-15)
             ctx.case(("logaint", q, s, a[1]), nontrivial=True, kind="log_a_int")
             case = {"q": q, "sigma": s, "alpha": float(a[1])}
         else:
